@@ -384,6 +384,43 @@ def fitConstantParams (F : Family) (c : Num) (n : Nat) (fit : Dict) : Dict :=
 def fitConstantState (F : Family) (opts : Dict) (c : Num) (n : Nat) (fit : Dict) : Uni :=
   { fam := F, fitted := true, params := some (fitConstantParams F c n fit), constant := some (.num c), options := opts }
 
+
+/-! ### the `_fit_constant` table against the `_is_constant` / `_extract_constant` rules -/
+
+def lookupC : List (String × CExpr) → String → Option CExpr
+  | [], _ => Option.none
+  | (k, e) :: r, key => if k = key then some e else lookupC r key
+
+/-- the expression is `0` whatever the constant. -/
+def zeroExpr : CExpr → Bool
+  | .lit t => t.isZero
+  | .constMinusConst => true
+  | _ => false
+
+/-- syntactic check: the parameters `_fit_constant` writes make `_is_constant()` true and
+    `_extract_constant()` return the constant of the data. -/
+def constCheck (F : Family) : Bool :=
+  match F.isConstant, F.extract with
+  | .keyEqZero k, .key k2 =>
+      (match lookupC F.fitConstant k with
+       | some e => zeroExpr e
+       | Option.none => false) && lookupC F.fitConstant k2 == some .theConstant
+  | .keysEqual a b, .key k2 =>
+      lookupC F.fitConstant a == some .theConstant && lookupC F.fitConstant b == some .theConstant &&
+        lookupC F.fitConstant k2 == some .theConstant
+  | .uniqueLenOne k, .keyFirst k2 => k == k2 && lookupC F.fitConstant k == some .repeatConstant
+  | _, _ => false
+
+/-- the shape of today's `StudentTUnivariate`: detected by `scale == 0`, but the value returned by
+    `_extract_constant` is whatever `_fit` (scipy's optimiser on constant data) left under that key. -/
+def constFromFit (F : Family) : Bool :=
+  match F.isConstant, F.extract with
+  | .keyEqZero k, .key k2 =>
+      (match lookupC F.fitConstant k with
+       | some e => zeroExpr e
+       | Option.none => false) && lookupC F.fitConstant k2 == some .fromFit
+  | _, _ => false
+
 /-! ## 4. bivariate copulas -/
 
 /-- `CopulaTypes` member names and the subclass declaring each (`copula_type = CopulaTypes.X`). -/
